@@ -233,7 +233,7 @@ FUZZ_DICT = ["#define ", "#include ", "#ifdef ", "#ifndef ", "#else", "#endif", 
              "class ", "delete ", "[] = {", "};", "private ", "params ", "call ", "then ", "else ", "exitWith ", "forEach ", "0x", "$", "1e9", "\\\n"]
 
 
-def _prefix_cases(limit_files=30, max_len=2500):
+def _prefix_cases(limit_files=60, max_len=6000):
     """every prefix of the smallest seed files, through the front end the file is written for (+ the preprocessor)"""
     seeds = sorted(_seeds(), key=lambda s_: len(s_[1]))
     out = []
